@@ -249,6 +249,11 @@ Fixpoint gens_n (n : nat) (c : cfg) (st : state) (inp : nat -> ginput) (g : nat)
 
 Definition init_state (pop0 : list agent) : state :=
   {| pop := pop0; memo := {| added := 0; calls := 0 |}; ck_count := 0; evo_count := 0 |}.
+(* calling the function again on a population that already has history (the population it returned, agents restored
+   from a checkpoint) and a memory that already holds transitions: counters, fitness lists and memory are state;
+   checkpoint_count / evo_count are locals of the call and start at 0 *)
+Definition init_state_from (pop0 : list agent) (added0 : nat) : state :=
+  {| pop := pop0; memo := {| added := added0; calls := 0 |}; ck_count := 0; evo_count := 0 |}.
 Definition fresh_agent (i : nat) : agent := {| idx := i; stp := [0]; fit := []; taken := 0 |}.
 
 (* the trace over a finite list of generation inputs, as compared with the implementation: per generation the
